@@ -132,8 +132,12 @@ def lit(fmt, which, sign):
     return m if sign > 0 else "-" + m
 
 
-EXTREME = [("1e+20", "5e-324", "3.0"), ("1.7976931348623157e+308", "-0.5", "1e-300"), ("3.0", "2.0", "-1.0"), ("-5e-324", "1e+20", "-1e+20"), ("1E-9", "-2.50E+00", "+4.0")]
-LEEDS_EXTREME = [("1.0E+20", "5.0E-324", "3.0"), ("3.0", "2.0", "-1.0"), ("-5E-324", "1.0E+20", "-1.0E+20")]
+# literal *shapes* (how Python prints the coefficient into the C expression): leading
+# "0.0", several integer digits, exponent forms, 17 significant digits ...
+SHAPES = [("0.03", "-0.03", "0.05"), ("-0.04", "0.02", "-0.07"), ("0.001", "-0.0001", "0.00012"), ("12.5", "-100.0", "1234.5"), ("1e-05", "-1e-05", "2e-05"),
+          ("0.1", "-0.1", "0.30000000000000004"), ("1e+16", "-1e+16", "1e+16"), ("-0.05", "0.0", "0.02"), ("7.0", "-0.009", "-0.05")]
+EXTREME = SHAPES + [("1e+20", "5e-324", "3.0"), ("1.7976931348623157e+308", "-0.5", "1e-300"), ("3.0", "2.0", "-1.0"), ("-5e-324", "1e+20", "-1e+20"), ("1E-9", "-2.50E+00", "+4.0")]
+LEEDS_EXTREME = [("0.03", "-0.03", "0.05"), ("-0.04", "0.02", "-0.07"), ("0.001", "-0.0001", "0.00012"), ("12.5", "-100.0", "1234.5"), ("1E-05", "-1E-05", "2E-05"), ("-0.05", "0.0", "0.02"), ("7.0", "-0.009", "-0.05"), ("1.0E+20", "5.0E-324", "3.0"), ("3.0", "2.0", "-1.0"), ("-5E-324", "1.0E+20", "-1.0E+20")]
 
 WINDOWS = [("10", "800"), ("0", "0"), ("-9999", "9999"), ("50", "-1"), ("-1", "300"), ("100", "100")]
 
